@@ -152,8 +152,12 @@ fn rep_of<'s>(p: P<'s>, lo: usize, hi: Option<usize>) -> chumsky::combinator::Re
     }
 }
 
-fn sep_of<'s>(p: P<'s>, s: P<'s>, lead: bool, trail: bool) -> chumsky::combinator::SeparatedBy<P<'s>, P<'s>, Val, Val, I<'s>, Ex<ER<'s>>> {
-    let r = p.separated_by(s);
+fn sep_of<'s>(p: P<'s>, s: P<'s>, lead: bool, trail: bool, lo: usize, hi: Option<usize>) -> chumsky::combinator::SeparatedBy<P<'s>, P<'s>, Val, Val, I<'s>, Ex<ER<'s>>> {
+    let r = p.separated_by(s).at_least(lo);
+    let r = match hi {
+        Some(h) => r.at_most(h),
+        None => r,
+    };
     let r = if lead { r.allow_leading() } else { r };
     if trail {
         r.allow_trailing()
@@ -321,9 +325,16 @@ pub fn run(cx: &RunCtx) -> i32 {
                 }
             }
             if !gb.nullable() {
-                for (lead, trail) in [(false, false), (true, true)] {
-                    let sep = |p, s| sep_of(p, s, lead, trail);
-                    pair(acc, "separated_by_unit", &d, &sep(a(), b()).map(unit), &sep(a(), b()).collect::<Vec<Val>>().ignored().map(unit), &pair_bufs);
+                for (lead, trail) in [(false, false), (true, true), (true, false), (false, true)] {
+                    for (lo, hi) in [(0usize, None), (0, Some(1usize)), (1, Some(2)), (2, Some(2)), (0, Some(0))] {
+                        if (lead != trail || hi == Some(0)) && idx % 2 == 1 {
+                            continue;
+                        }
+                        let sep = |p, s| sep_of(p, s, lead, trail, lo, hi);
+                        pair(acc, "separated_by_unit", &d, &sep(a(), b()).map(unit), &sep(a(), b()).collect::<Vec<Val>>().ignored().map(unit), &pair_bufs);
+                        // ... and followed by something, so that what the list left unconsumed is visible
+                        pair(acc, "separated_by_unit_then_rest", &d, &sep(a(), b()).ignore_then(any().repeated().collect::<String>()).map(Val::Str), &sep(a(), b()).collect::<Vec<Val>>().ignore_then(any().repeated().collect::<String>()).map(Val::Str), &pair_bufs);
+                    }
                 }
             }
         }
@@ -356,7 +367,7 @@ pub fn run(cx: &RunCtx) -> i32 {
             pair(acc, "repeated_unit", &d, &rep(a()).map(unit), &rep(a()).collect::<Vec<Val>>().ignored().map(unit), &pair_bufs);
             pair(acc, "repeated_unit_to_slice", &d, &rep(a()).to_slice().map(|s: &str| Val::Str(s.to_string())), &rep(a()).collect::<Vec<Val>>().map_with(|_, e| Val::Str(e.slice().to_string())), &pair_bufs);
         }
-        let sep = |p, s| sep_of(p, s, false, true);
+        let sep = |p, s| sep_of(p, s, false, true, 0, None);
         pair(acc, "separated_by_unit", &d, &sep(a(), a()).map(unit), &sep(a(), a()).collect::<Vec<Val>>().ignored().map(unit), &pair_bufs);
     });
     acc.merge(eacc);
